@@ -16,6 +16,8 @@ claimed = {
  "C12": ("differential no-effect check of failed (fn error, rollback, oversized entry at any position, injected write error), read-only and finished transactions, in process and after reopen", "§5 C12"),
  "C13": ("differential: a multi-operation write transaction against a twin database committing each operation on its own (return values and final observation)", "§5 C13"),
  "C14": ("lock discipline (DESIGN §6): every API operation runs symbolically while every load/store of shared state (DB object graph, package variables, files) is checked against the lock held: writes need the write lock, reads a lock, no package variable is written under a per-database lock; lock balance and self-deadlock on every path. Schedules are not enumerated", "§6"),
+ "C15": ("differential: the full observation before Merge equals the one after it (and after a second Merge); a twin database that never merges receives the same history and the same later writes, compared in process and after reopen; TTL records expiring before the merge; Merge after a crash must not resurrect uncommitted records", "§5 C15"),
+ "C16": ("the C15 scenario with the modelled process dying at any file-mutation point inside Merge (every byte cut of every rewritten record, every create / truncate / remove); after the real Open the observation equals the one before Merge", "§5 C16"),
  "C17": ("the lock-discipline check of §6 with Merge as the operation (every access Merge performs outside its own write transaction is reported)", "§6"),
  "C18": ("Backup: lock discipline of the copy (read lock held for the whole CopyDir) and differential: the copy opens and shows exactly the observation at backup time, not later writes", "§5 C18"),
  "C19": ("differential: one symbolic history on two databases that differ in RWMode, StartFileLoadingMode, SyncEnable or index mode; call results, observation and observation after reopen must agree (includes entries that exactly fill a segment)", "§5 C19"),
